@@ -72,7 +72,8 @@ class _TextParser(HTMLParser):
       span.set_style(styles.StyleProperties.TextDecoration, styles.TextDecorationType(underline=True))
     elif tag.lower() == "font":
       for attr in attrs:
-        if attr[0] == "color":
+        # a color attribute without a value (<font color>) is ignored
+        if attr[0] == "color" and attr[1] is not None:
           color = parse_color(attr[1])
           break
       else:
